@@ -121,6 +121,8 @@ class Ctx:
         return n
 
     # ---------- evaluating cases.v shards ----------
+    domain = [0, 0]
+
     def run_case_shards(self, d, timeout=1500):
         files = sorted(glob.glob(os.path.join(d, "cases_*.v")))
         procs = []
@@ -136,6 +138,9 @@ class Ctx:
             if not m:
                 raise CheckError(f"cannot parse model output of {f}: {out[-500:]}")
             results[f] = re.sub(r"\s+", " ", m.group(1)).strip()
+            w = re.search(r"W\s*=\s*\((\d+),\s*(\d+)\)", out)
+            if w:
+                self.domain = [self.domain[0] + int(w.group(1)), self.domain[1] + int(w.group(2))]
         return results
 
     # ---------- findings ----------
